@@ -301,13 +301,21 @@ def check_symbols(run, lst, ob):
             # block's
             if lst.block_info[tok.bid]["blk"]["items"]:
                 return None
+            # ... which may stand anywhere in the chain of deleted blocks
+            # behind it (the blocks in between are gone by then); a chain of
+            # proxy deletions only leaves the zero-sized block where it is
             j = k + 1
-            while by_order.get((si, j)) is not None and not \
-                    lst.block_info[by_order[(si, j)]]["blk"]["items"]:
+            plain = False
+            while True:
+                nb = by_order.get((si, j))
+                if nb is None:
+                    break
+                if nb in lst.deleted_blocks:
+                    plain = plain or nb not in proxy_blocks
+                elif lst.block_info[nb]["blk"]["items"]:
+                    break
                 j += 1
-            nb = by_order.get((si, j))
-            if nb is None or nb not in lst.deleted_blocks or \
-                    nb in proxy_blocks:
+            if not plain:
                 return None
         found = None
         while True:
@@ -344,6 +352,9 @@ def check_symbols(run, lst, ob):
                     if t.bid in lst.deleted_blocks and \
                             t.bid not in proxy_blocks:
                         continue
+                    if t.bid not in lst.deleted_blocks and \
+                            not lst.block_info[t.bid]["blk"]["items"]:
+                        continue    # zero-sized input block: transparent
                     nxt = t.bid
                     break
                 if t.t in "ID" and t.patch is None and not t.uncovered:
@@ -1379,11 +1390,20 @@ def expected_entries(case, lst):
             while True:
                 if cur in lst.proxy_deleted:
                     break
-                if cur not in lst.deleted_blocks:
-                    (opt if skipped_data else out).add(bpos[cur])
-                    break
                 si, k = order[cur]
                 nb = seq.get((si, k + 1))
+                if cur not in lst.deleted_blocks:
+                    if not seq[(si, k)]["items"] and nb is not None and \
+                            nb["id"] in lst.deleted_blocks and \
+                            nb["id"] not in lst.proxy_deleted:
+                        # a zero-sized block goes away with the deleted block
+                        # behind it: an entry that was promoted onto it is
+                        # promoted once more or lost, either is accepted
+                        opt.add(bpos[cur])
+                        skipped_data = True
+                    else:
+                        (opt if skipped_data else out).add(bpos[cur])
+                        break
                 # a data block deleted in the same rewrite is no longer
                 # between the entry and the following code: promotion across
                 # it is accepted either way
